@@ -6,3 +6,5 @@ pub use core_h::common;
 
 #[cfg(any(kani, test))]
 mod anb;
+#[cfg(any(kani, test))]
+mod small_kernels;
